@@ -182,6 +182,8 @@ let () =
              | [RUnit] | [RArg _] -> (match Hashtbl.find_opt lpdone w with Some (Some _) -> () | _ -> bad "call returned without LP")
              | _ -> ())
           end;
+          if check_gi && not (c_nogap_b st') then (incr pcbad; if !pcbad <= 3 then Printf.printf "PCBAD(nogap) case %s after step of %d: %s\n" c.id w (state st' (tids c)));
+          if check_gi && not (c_scan_lo_b st') then (incr pcbad; if !pcbad <= 3 then Printf.printf "PCBAD(scanlo) case %s after step of %d: %s\n" c.id w (state st' (tids c)));
           if check_gi && not (c_all_pc_ok3_b st') then (incr pcbad; if !pcbad <= 3 then Printf.printf "PCBAD(ok3) case %s after step of %d: %s\n" c.id w (state st' (tids c)));
           if check_gi && not (c_all_pc_ok2_b st') then (incr pcbad; if !pcbad <= 3 then Printf.printf "PCBAD(adj) case %s after step of %d: %s\n" c.id w (state st' (tids c)));
           if check_gi && not (c_all_pc_ok_b c.order st') then (incr pcbad; if !pcbad <= 3 then Printf.printf "PCBAD case %s after step of %d: %s\n" c.id w (state st' (tids c)));
